@@ -419,6 +419,14 @@ func checkCase(c Case, r *vf.R) error {
 					pt := st.coordView.Apply(oracle.Pt{X: x, Y: y})
 					m := csView(st.cs, W, H).Mul(st.view).Mul(oracle.Translate(pt.X, pt.Y))
 					exp = append(exp, expected{kind: "path", z: z, seq: len(exp), m: m, style: style, data: append([]float64(nil), p.Data()...)})
+				}
+				if o.Name == "DrawPath" && math.Mod(math.Floor(a[2]*4), 2) == 0 {
+					// the caller goes on building its path after the draw: the recorded operation keeps the geometry it
+					// had when it was drawn (seed C15-7: the canvas kept the caller's pointer)
+					p.LineTo(a[2]+3, a[3]+5)
+					p.Close()
+				}
+				if hasFill || hasStroke {
 					if popAfterSetter {
 						drewAfterPop = true
 					}
